@@ -468,7 +468,7 @@ def rule_flow(chk):
                        "emitted verbatim%s" % (pos, sorted({TF.describe(o)[:60] for o in org})[:3],
                                                " and references (printed through NameMap::get_name_qualified) can name a different identifier" if label == "namespace" else ""),
                        where(b, node), sample={"target": tgt, "position": pos, "provenance": sorted(kinds)})
-        chk.floor("C15.floor/%s/declaration-sites" % tgt, n, 10, "%s declaration-name sites" % tgt, crate)
+        chk.floor("C15.floor/%s/declaration-sites" % tgt, n, 8, "%s declaration-name sites" % tgt, crate)
 
 
 # ------------------------------------------------------------------ NameMap::build
@@ -752,7 +752,7 @@ def rule_qualified_refs(chk):
     (NameMap::get_name_leaf, directly or through a leaf helper) - a leaf name looked up at the use site can bind to a
     same-named entity of another scope."""
     f = chk.facts
-    for tgt, crate, floor in (("hlsl", "rssl_hlsl", 5), ("msl", "rssl_msl", 4)):
+    for tgt, crate, floor in (("hlsl", "rssl_hlsl", 3), ("msl", "rssl_msl", 3)):      # (liveness floors: code-site counts may shrink when helpers are merged)
         helpers = [b for b in f.crates[crate]["bodies"] if b.get("kind") == "AssocFn" and "GenerateContext" in (b.get("self_ty") or b["path"]) and
                    "thir" in b and short((b.get("ret") or "").split("<")[1].split(",")[0] if "Result<" in (b.get("ret") or "") else (b.get("ret") or "")) == "ScopedName"]
         by_path = {b["path"]: b for b in f.crates[crate]["bodies"] if "thir" in b}
